@@ -252,3 +252,5 @@ m('C20', 'statscompiler.py', "        if pid == 0:\n            # process has be
 m('C09', 'commander.py', "        super().abort()\n        self.application_start_requests = {}\n        self.process_start_requests = {}", "        super().abort()", 'C09.R5|final-order|deferred')
 m('C09', 'statemachine.py', "        self._abort_jobs()\n        self.supvisors.stopper.stop_applications()", "        self.supvisors.stopper.stop_applications()\n        self._abort_jobs()", 'C09.R5|final-order|abort-first')
 m('C09', 'statemachine.py', "        which forces the FINAL state before everything is stopped.\n        \"\"\"\n        return None", "        which forces the FINAL state before everything is stopped.\n        \"\"\"\n        self.context.activate_checked()\n        return None", 'C09.R5|final-order|no-activation')
+m('C16', 'rpcinterface.py', "        if not process:\n            # a namespec such as 'group:*' designates an application, not a process\n            self._raise(Faults.BAD_NAME, 'start_args', f'namespec={namespec} does not designate a process')\n", "", 'C16.R4|namespec-process')
+m('C17', 'rpcinterface.py', "        if not process:\n            # a namespec such as 'group:*' designates an application, not a process\n            self._raise(Faults.BAD_NAME, 'start_args', f'namespec={namespec} does not designate a process')\n", "", 'C17.R4|namespec-process')
